@@ -113,6 +113,7 @@ def parse_challenge(www):
 # ------------------------------------------------------------------- world
 class World:
     """one application + protected default handler"""
+    built = 0
     def __init__(self, clock, alg, qop, timeout, realm, required,
                  secret="s3cr3t", pmap=True):
         from poorwsgi import wsgi, digest, state
@@ -121,10 +122,15 @@ class World:
         self.realm, self.required, self.secret = realm, required, secret
         self.hf = wsgi.AUTH_DIGEST_ALGORITHMS[alg]      # real or fake
         app = new_app(secret_key=secret)
-        app.auth_type = "Digest"
-        app.auth_algorithm = alg
-        app.auth_qop = qop
-        app.auth_timeout = timeout
+        # the settings are independent: every order of assignment must give
+        # the same authentication behaviour (examples/http_digest.py sets the
+        # algorithm before the type)
+        World.built += 1
+        settings = [("auth_type", "Digest"), ("auth_algorithm", alg),
+                    ("auth_qop", qop), ("auth_timeout", timeout)]
+        shift = World.built % 4
+        for name, value in settings[shift:] + settings[:shift]:
+            setattr(app, name, value)
         amap = digest.PasswordMap() if pmap else {}
         for rlm, users in USERS.items():
             for user, password in users.items():
